@@ -535,13 +535,18 @@ func c20(tier string, args []string) int {
 		}
 		run.Count("cache_file_bytes", int64(len(good)))
 		// one damaged-cache case
+		var runCase func(name string, intact bool)
 		try := func(name string, data []byte, remove bool, intact bool) {
-			cases++
 			if remove {
 				os.Remove(cachePath)
 			} else {
 				ioutil.WriteFile(cachePath, data, 0644)
 			}
+			runCase(name, intact)
+		}
+		tryAsIs := func(name string) { runCase(name, false) }
+		runCase = func(name string, intact bool) {
+			cases++
 			var b1, b2, b3, b4, b5 *openingbook.Book
 			var e1, e2, e3, e4, e5 error
 			x := sched.Run(nil, func() {
@@ -608,6 +613,20 @@ func c20(tier string, args []string) int {
 		}
 		if mine() {
 			try("no cache file", nil, true, false)
+		}
+		// a cache path that can neither be decoded nor written again: a directory, a link into a folder that does not exist
+		if mine() {
+			os.Remove(cachePath)
+			os.Mkdir(cachePath, 0755)
+			tryAsIs("a directory at the cache path")
+			os.Remove(cachePath)
+		}
+		if mine() {
+			os.Remove(cachePath)
+			if os.Symlink(filepath.Join(dir, "no-such-folder", "x.cache"), cachePath) == nil {
+				tryAsIs("a dangling link at the cache path")
+			}
+			os.Remove(cachePath)
 		}
 		for k := 0; k < len(good); k++ {
 			if mine() && !run.Expired() {
